@@ -74,6 +74,14 @@ pub fn adjust(cfg: &mut SwarmCfg, tier: &str, r: &mut Prng) {
                 cfg.faults.push("A-ID-ERR".into());
                 cfg.knobs.push(("sample-faults".into(), 6));
             }
+            if cfg.scenario != "identity-faults" && cfg.scenario != "two-groups" && r.chance(1, 3) {
+                // one sampled call of the crypto provider fails per operation (an HSM that is away, a key the provider
+                // refuses): the operation fails and nothing has changed, or the error is absorbed where that is legitimate
+                cfg.scenario = "crypto-faults".into();
+                cfg.oracles.push("crypto-faults".into());
+                cfg.faults.push("C-ERR".into());
+                cfg.knobs.push(("sample-faults".into(), *r.pick(&[8u64, 40, 150, 400])));
+            }
             if r.chance(1, 2) {
                 cfg.knobs.push(("psk".into(), 1));
             }
